@@ -292,9 +292,20 @@ fn spawn_async_ao_list_in_task<'a, SE: extensions::ShellExtensions>(
     }
 
     let join_handle = tokio::spawn(async move {
-        cloned_ao_list
+        // Handle errors within the background shell's own context (as for a subshell), so
+        // they are reported when they happen and are not mistaken by a later `wait` for a
+        // failure to wait.
+        match cloned_ao_list
             .execute(&mut cloned_shell, &cloned_params)
             .await
+        {
+            Ok(result) => Ok(result),
+            Err(error) => {
+                let mut stderr = cloned_params.stderr(&cloned_shell);
+                let _ = cloned_shell.display_error(&mut stderr, &error);
+                Ok(error.into_result(&cloned_shell))
+            }
+        }
     });
 
     shell.jobs_mut().add_as_current(jobs::Job::new(
